@@ -13,6 +13,7 @@ import Proofs.Lemmas.C12Dist
 import Proofs.Lemmas.C12Pct
 import Proofs.Lemmas.C12Bisect
 import Proofs.Lemmas.C12Lentz
+import Proofs.Lemmas.C12Weighted
 import Proofs.Lemmas.C12F64c
 import Model.Stats.TTest
 
@@ -188,6 +189,36 @@ theorem geomean_between_bounds (log exp : ℚ → ℚ)
     subst e
     have : lsum (xs.map log) / xs.length = log lo := le_antisymm m2 m1
     rw [this, hinv lo hlo]
+
+/-! ### weighted samples -/
+
+/-- **wmean_exact** — the weighted incremental loops of `Sample.Mean` / `Sample.GeoMean` (as of
+20422ca: zero weights skipped) compute Σw·x/Σw resp. exp(Σw·log x/Σw) for non-negative weights, and
+NaN exactly when the total weight is zero — in particular a leading zero weight is harmless. -/
+theorem wmean_exact (xs : List (ℚ × ℚ)) (hw : ∀ p ∈ xs, 0 ≤ p.2) (log exp : ℚ → ℚ) :
+    Weighted.wmean xs = (if wsumQ xs = 0 then none else some (wdotQ (fun x => x) xs / wsumQ xs)) ∧
+    Weighted.wgeoMean log exp xs =
+      (if wsumQ xs = 0 then none else some (exp (wdotQ log xs / wsumQ xs))) := by
+  have h1 := wmeanLoop_spec (fun x => x) xs hw 0 0 0 (le_refl _) (by ring)
+  have h2 := wmeanLoop_spec log xs hw 0 0 0 (le_refl _) (by ring)
+  simp only [zero_add] at h1 h2
+  constructor
+  · unfold Weighted.wmean
+    simp only [ofNat_rat, Nat.cast_zero, eq_rat, h1.1]
+    by_cases hz : wsumQ xs = 0
+    · simp [hz]
+    · simp only [hz, if_false]
+      congr 1
+      rw [eq_div_iff hz, ← h1.1]; exact h1.2
+  · unfold Weighted.wgeoMean
+    simp only [ofNat_rat, Nat.cast_zero, eq_rat, h2.1]
+    by_cases hz : wsumQ xs = 0
+    · simp [hz]
+    · simp only [hz, if_false]
+      congr 2
+      rw [eq_div_iff hz, ← h2.1]; exact h2.2
+
+example : Weighted.wmean [((1 : ℚ), (0 : ℚ)), (2, 1), (3, 1)] = some (5 / 2) := by decide +kernel
 
 /-! ### percentiles -/
 
